@@ -399,3 +399,19 @@ theorem rt_prim (p : Prim) (v : Val) (st : EncSt) (b : Bytes) (st' : EncSt)
         simp [hr, runAbs, hs, Nat.add_comm]
       · simp [illTyped] at he
     | _ => simp [encPrim, illTyped] at he
+  | varu32 =>
+    cases v with
+    | int n =>
+      simp only [encPrim] at he
+      split at he
+      · rename_i hr
+        simp at he
+        obtain ⟨rfl, rfl⟩ := he
+        refine ⟨?_, hst⟩
+        simp only [decPrim, bind_eq_dbind, pure_eq_ret]
+        have hlt : n.toNat < 2 ^ 32 := by omega
+        rw [readVarU32_bind hlt _ hv]
+        have : ((n.toNat : Nat) : Int) = n := by omega
+        simp [runAbs, hs, this]
+      · simp [illTyped] at he
+    | _ => simp [encPrim, illTyped] at he
